@@ -16,6 +16,7 @@ S_MISSING = b'0'
 S1 = b'1.000000-10-100-33188-0-0'
 S2 = b'2.000000-10-100-33188-0-0'      # differs from S1 in mtime  (=> manual override when compared with S1)
 S3 = b'1.000000-10-100-33261-0-0'      # differs from S1 only in st_mode (dirty, but not an override)
+S4 = b'1.000000-11-100-33188-0-0'      # same mtime as S1, different size (cp -p / touch -r over an edited file): an override
 S_DIR = b'dir'
 FILE_COLS = ['rowid', 'name', 'is_generated', 'is_override', 'checked_runid', 'changed_runid', 'failed_runid', 'stamp', 'csum']
 
@@ -126,6 +127,12 @@ class DBWorld(World):
             name = name[:-2]
         st = self.fs_stamp(name)
         return st is not None and tuple(st) == tuple(S_DIR)
+
+    def is_file(self, eng, path):
+        name = self.rel(path)
+        st = self.fs_stamp(name)
+        self.ev('exists', name=bytes(name).decode('latin-1'), result=st is not None, is_file=True)
+        return st is not None and tuple(st) != tuple(S_DIR)
 
     def current_dir(self, eng):
         return ok(Vec(list(BASE), 'PathBuf'))
